@@ -1154,3 +1154,116 @@ pub fn f_seq(n: usize, all_encl: bool) -> Vec<Case> {
     }
     v
 }
+
+// ------------------------------------------------------------------------------------------------------------
+// F-STR / F-NUM: literal bodies, enumerated exhaustively up to a length bound
+// ------------------------------------------------------------------------------------------------------------
+
+pub const STR_ALPHABET: &[&str] = &["'", "\"", "\\", "n", "0", "1", "9", "x", "u", "{", "}", "z", "a", "q", "\n", " ", "é", "\r\n"];
+/// the escape-relevant core used for the longest bodies
+pub const STR_CORE: &[&str] = &["'", "\"", "\\", "n", "0", "x", "u", "{", "z", "\n"];
+
+pub const STR_POSITIONS: &[(&str, &str)] = &[
+    ("x = ", "\n"),
+    ("f ", "\n"),
+    ("f(", ")\n"),
+    ("t[", "] = 1\n"),
+    ("x = { [", "] = 1 }\n"),
+    ("o:m(", ")\n"),
+    ("o:m ", "\n"),
+];
+
+fn bodies(alphabet: &[&str], len: usize, out: &mut Vec<String>) {
+    fn rec(alphabet: &[&str], len: usize, cur: &mut String, out: &mut Vec<String>) {
+        if len == 0 {
+            out.push(cur.clone());
+            return;
+        }
+        for a in alphabet {
+            let l = cur.len();
+            cur.push_str(a);
+            rec(alphabet, len - 1, cur, out);
+            cur.truncate(l);
+        }
+    }
+    rec(alphabet, len, &mut String::new(), out);
+}
+
+/// all string literal programs: bodies x forms x positions (positions beyond the first only for bodies of length <= pos_len)
+pub fn f_str(max_len: usize, core_len: usize, pos_len: usize) -> Vec<Case> {
+    let mut bs: Vec<String> = Vec::new();
+    for l in 0..=max_len {
+        bodies(STR_ALPHABET, l, &mut bs);
+    }
+    for l in (max_len + 1)..=core_len {
+        bodies(STR_CORE, l, &mut bs);
+    }
+    let mut v = Vec::new();
+    for b in &bs {
+        let blen = b.chars().count();
+        let mut forms: Vec<String> = vec![format!("\"{}\"", b), format!("'{}'", b)];
+        if !b.contains('\\') || true {
+            if !b.contains("]]") && !b.ends_with(']') {
+                forms.push(format!("[[{}]]", b));
+            }
+            if !b.contains("]=]") && !b.ends_with(']') {
+                forms.push(format!("[=[{}]=]", b));
+            }
+        }
+        for f in &forms {
+            let npos = if blen <= pos_len { STR_POSITIONS.len() } else { 1 };
+            for (pre, post) in STR_POSITIONS.iter().take(npos) {
+                let text = format!("{}{}{}", pre, f, post);
+                v.push(case("F-STR", Dial::Core, text));
+            }
+        }
+    }
+    v
+}
+
+pub fn f_num() -> Vec<Case> {
+    let mut sp: Vec<String> = Vec::new();
+    for i in ["0", "1", "10", "007", "123456789012345678901234567890"] {
+        for f in ["", ".", ".5", ".50", ".0"] {
+            for e in ["", "e3", "E+3", "e-3", "e0"] {
+                sp.push(format!("{}{}{}", i, f, e));
+            }
+        }
+    }
+    for f in [".5", ".0", ".50", ".5e3", ".5E-3", ".007"] {
+        sp.push(f.to_string());
+    }
+    for h in ["0x1F", "0xff", "0X0", "0xA", "0x00ff", "0xFFFFFFFFFFFFFFFF", "0x7fffffffffffffff", "0xffffffffffffffffff"] {
+        sp.push(h.to_string());
+    }
+    for h in ["0xA.8", "0x.8p1", "0x1F.", "0xf.8p1", "0x1p4", "0X1P-4", "0x.1", "0x1.8p+1", "0xa.bp0", "0x0.8"] {
+        sp.push(h.to_string());
+    }
+    for b in ["0b101", "0B1", "0b1_0", "0b0", "0b_1"] {
+        sp.push(b.to_string());
+    }
+    for u in ["1_000", "1_000.5", "0xFF_FF", "1_.5", "1__0", "1_e3", "0x_ff", "1e1_0"] {
+        sp.push(u.to_string());
+    }
+    for s in ["1LL", "1ULL", "0x1ULL", "1i", "1.5i", ".5i", "0xFFLL", "1ll", "1Ull", "12e3i"] {
+        sp.push(s.to_string());
+    }
+    let ctxs2: &[(&str, &str)] = &[
+        ("x = ", "\n"),
+        ("x = -", "\n"),
+        ("x = ", " ..1\n"),
+        ("x = 1 ..", "\n"),
+        ("x = t[", "]\n"),
+        ("f(", ")\n"),
+        ("x = { ", " }\n"),
+        ("x = ", " + .5\n"),
+        ("return ", "\n"),
+    ];
+    let mut v = Vec::new();
+    for s in &sp {
+        for (pre, post) in ctxs2 {
+            v.push(case("F-NUM", Dial::Core, format!("{}{}{}", pre, s, post)));
+        }
+    }
+    v
+}
